@@ -694,6 +694,7 @@ class KEval:
                 return TOP
             for x, y, left in ((a, b, True), (b, a, False)):
                 if isinstance(x, Ref) and x.local and not x.idx and x.name in self._allocs and x.init and isinstance(x.init[1], Poly) \
+                        and not any(st_.arr == x.name for st_ in S.stores) \
                         and isinstance(self.scalar(y), Poly) and not any(at[0] == "s" and at[1] in self._allocs for at in self.scalar(y).atoms()):
                     # arithmetic on a freshly allocated constant array (-1 * np.ones(n), 0 + 0j * np.zeros(n)) is still a fresh array
                     iv = self.binop(e.op, x.init[1], self.scalar(y)) if left else self.binop(e.op, self.scalar(y), x.init[1])
@@ -746,7 +747,16 @@ class KEval:
                     if at[0] == "s" and not at[1].startswith("?") and at[1] not in ("pi", "J", ":"):
                         return Poly.elem(at[1], *idx)
                     if at[0] == "i":
-                        return Poly.elem(at[1], *(at[2] + tuple(idx)))
+                        if not any(x == SLICE for x in at[2]):
+                            return None  # a scalar element (e.g. centre[0]) is not indexed again
+                        more = list(idx)
+                        filled = []
+                        for x in at[2]:
+                            if x == SLICE and more:
+                                filled.append(more.pop(0))  # a[:, 0][k] is a[k, 0]
+                            else:
+                                filled.append(x)
+                        return Poly.elem(at[1], *(tuple(filled) + tuple(more)))
                     return None
                 return base.subst(sub)
             return TOP
